@@ -450,6 +450,7 @@ func c03Bases(rng *rand.Rand, n int) []string {
 		"if", "if true", "else", "end", "while", "return", "x :=", "x:", "x:[]", "x:{}", "x = ", "a.", "a.(", "a.(num", "a[", "a[1:", "[", "{", "{a:", "(", "\"", "\"\\", "//",
 		"x := [] + {}", "print 1 2 3)", "x := 1 +", "\x00", "a\x00b := 1", "print \"a\x00b\"", "\r\n", "print 1\r\nprint 2\r\n", "\xff\xfe", "é := 1\nprint é\n", "x٣ := 1\nprint x٣\n",
 		"func f\nend\nfunc f\nend\n", "func f x:num x:num\nend\n", "on down\nend\non down\nend\n", "func print\nend\n", "x:any\nprint x.()\n", "x:any\nprint x.(foo)\n",
+		"print ([][:])\n", "x:any\nx = ([][:0])\nprint x [([][1:])] {a:([[]][0][:])}\n", "print ([]+[]) ([]*2) ({}) (([])) ([[]][0]) ({a:[]}.a)\n",
 		"print [1 2 3][", "m := {}\nm.a.b = 1\n", "f := 1\nf 2\n", "func f:num\nend\nx := f f\n", "print (", "print ((((((((((1))))))))))", strings.Repeat("(", 300), strings.Repeat("[", 300), strings.Repeat("if true\n", 200),
 		strings.Repeat("-", 500)+"1", "print "+strings.Repeat("!", 300)+"true", "x := "+strings.Repeat("[", 100)+strings.Repeat("]", 100),
 	)
@@ -485,6 +486,15 @@ func RunC03(d *Driver) *Report {
 	// the first error with partially built nodes (nil types)
 	for _, prog := range c03DeclUse() {
 		c03Parse(r, "declared-then-used", prog)
+	}
+	// every cell of the type matrix of C02 / C04 (every kind of value in every position that takes one): the parser
+	// answers, accepted or not
+	ntm := 0
+	for i, prog := range TypeMatrixPrograms() {
+		if Thorough() || i%3 == int(Seed()%3) || !strings.Contains(prog, "x := ") {
+			c03Parse(r, "type-matrix", prog)
+			ntm++
+		}
 	}
 	// random runes and bytes for the lexer
 	alphabet := []rune(" \t\r\n\x00\"\\/=!<>:.+-*%(){}[]_aZ09é٣日 �'#@;,")
@@ -523,6 +533,7 @@ func RunC03(d *Driver) *Report {
 		}
 	}
 	r.Rule = fmt.Sprintf("lexer: %d base texts (all evy blocks of docs/*.md, a quarter of the playground samples, generated programs, hand-written fragments incl. NUL, CR, invalid UTF-8, non-ASCII letters and digits), a fifth of their mutations and %d random rune strings: every real token's offset/line/column is compared with the specification of a position (counting from the start of the text) and the whole token list with the Lean lexer model. Parser: every base text, every prefix at a token boundary and %d per-text mutations (token deletion, insertion, substitution, double mistakes, cut-outs; %d texts in all) must return within 10 s, without a Go panic, with a program or with located errors whose positions exist and are token starts; %d programs with one known mistake at a known place must report it at that character. Non-trivial = distinct text", len(bases), nrand, budget, nmut, len(c03Located()))
+	r.Rule += fmt.Sprintf("; type matrix: %d programs (every kind of value, also untyped empty slices / operators / literal elements, grouped and not, in every position that takes a value) parsed without crash or hang", ntm)
 	// block structure: the line-level parser model (Model/Blocks.lean) on well-nested and broken line sequences
 	nblk := 1500
 	if Thorough() {
